@@ -67,6 +67,7 @@ PROBES = ["job_first_in_interpreter", "job_after_same_execution",
           "second_round_finds_files", "restart_completed_rest",
           "torn_or_empty_log_rejected", "domain:bp", "domain:tsp",
           "domain:ttp", "domain:qap", "domain:instgen", "domain:dc",
+          "domain:dcs",
           "evaluate_from_logs"]
 HARD_CAP_S = 900.0
 CHUNK = 1
@@ -84,13 +85,13 @@ def plan(tier: str) -> list:
                 {"name": "fault", "n": 44, "faults": True,
                  "domains": ["bp", "bp", "bp", "tsp", "ttp", "qap"]},
                 {"name": "heavy", "n": 4, "faults": True,
-                 "domains": ["instgen", "dc"]}]
+                 "domains": ["instgen", "dc", "instgen", "dc", "dcs"]}]
     return [{"name": "nofault", "n": 800, "faults": False,
              "domains": ["bp", "bp", "tsp", "ttp", "qap"]},
             {"name": "fault", "n": 2800, "faults": True,
              "domains": ["bp", "bp", "bp", "tsp", "ttp", "qap"]},
             {"name": "heavy", "n": 120, "faults": True,
-             "domains": ["instgen", "dc"]}]
+             "domains": ["instgen", "dc", "instgen", "dc", "dcs"]}]
 
 
 def warmup() -> None:
@@ -118,16 +119,18 @@ def _gen_setups(rng: random.Random, dom: str) -> list:
         return rng.choice([["qap:rls"], ["qap:rs"], ["qap:rls", "qap:rs"]])
     if dom == "instgen":
         return ["instgen:cmaes"]
+    if dom == "dcs":
+        return [rng.choice(["dcs:raw", "dcs:sur:2:8:6", "dcs:sur:1:12:8"])]
     return ["dc:cmaes"]
 
 
 def generate(rng: random.Random, batch: dict) -> dict:
     dom = rng.choice(batch["domains"])
-    heavy = dom in ("instgen", "dc")
+    heavy = dom in ("instgen", "dc", "dcs")
     setups = _gen_setups(rng, dom)
     pool = jobs.instances_for(dom)
     instances = rng.sample(pool, 1 if heavy else rng.choice([1, 1, 2]))
-    if dom == "dc":
+    if dom in ("dc", "dcs"):
         budget = rng.choice([2, 3, 4])
     elif dom == "instgen":
         budget = rng.choice([6, 10, 14])
@@ -230,6 +233,13 @@ def directed(tier: str) -> list:
                  "instances": ["instgen:beng01:0.25"], "budget": 8, "boots": [
         {"hashseed": "31", "clock": {"mode": "fixed", "tick": 1000},
          "shuffle_seed": 6, "crash": None,
+         "actions": [{"a": "run", "n_runs": [1], "warmup": False,
+                      "pre_warmup": False}]}]})
+    docs.append({"domain": "dcs", "setups": ["dcs:raw"],
+                 "instances": ["dcs:stuart_landau"], "budget": 4,
+                 "boots": [
+        {"hashseed": "51", "clock": {"mode": "fixed", "tick": 1000},
+         "shuffle_seed": 8, "crash": None,
          "actions": [{"a": "run", "n_runs": [1], "warmup": False,
                       "pre_warmup": False}]}]})
     docs.append({"domain": "dc", "setups": ["dc:cmaes"],
@@ -388,7 +398,7 @@ def ref_main(argv: list) -> int:
     out = {}
     if spec["mode"] == "run":
         from pycommons.io.path import Path
-        log = spec["out"] + ".log.txt"
+        log = spec["out"] + f".{os.getpid()}.log.txt"
         if os.path.exists(log):
             os.remove(log)
         exe.set_rand_seed(int(spec["seed"]))
@@ -413,7 +423,7 @@ def ref_main(argv: list) -> int:
         out["value"] = repr(obj.evaluate(y))
         out["lower"] = repr(obj.lower_bound())
         out["upper"] = repr(obj.upper_bound())
-    tmp = spec["out"] + ".tmp"
+    tmp = spec["out"] + f".{os.getpid()}.tmp"
     with open(tmp, "w", encoding="utf-8") as f:
         json.dump(out, f)
     os.replace(tmp, spec["out"])
@@ -494,7 +504,7 @@ def _inst_data(inst_id: str) -> dict:
                   "H": int(sp.bin_height), "n_items": int(sp.n_items),
                   "min_bins": int(sp.min_bins),
                   "dim": int(inst.search_space.dimension)})
-    elif dom == "dc":
+    elif dom in ("dc", "dcs"):
         d["dim"] = int(inst.controller.parameter_space().dimension)
     _INST_CACHE[inst_id] = d
     return d
@@ -616,14 +626,14 @@ def _truth(dom: str, setup_id: str, inst_id: str, rec: dict, budget: int,
                     f"{where}: generated instance {rec['y']} does not keep "
                     f"the template's name/bin/item count/bin need {d}")
                 return False
-        elif dom == "dc":
+        elif dom in ("dc", "dcs"):
             vec = [float(v) for v in rec["y"].split(";")]
             if len(vec) != d["dim"] or any(
                     not (-32.0 <= v <= 32.0) for v in vec):
                 core.violation(res, "final-solution-infeasible:box",
                                f"{where}: controller vector {vec}")
                 return False
-        if dom in ("instgen", "dc"):
+        if dom in ("instgen", "dc", "dcs"):
             ev = _reference({"mode": "eval", "setup": setup_id,
                              "inst": inst_id, "budget": budget,
                              "y": rec["y"]}, res)
@@ -647,6 +657,23 @@ def _truth(dom: str, setup_id: str, inst_id: str, rec: dict, budget: int,
                        f"{rec['y'][:300]}")
         return False
     return True
+
+
+def _signature(out: str) -> str:
+    """exception type + innermost frame + innermost moptipy/moptipyapps frame."""
+    import re
+    frames = re.findall(r'File "([^"]+)", line \d+, in (\w+)', out)
+    exc = re.findall(r"^(\w+(?:\.\w+)*(?:Error|Exception))\b", out,
+                     flags=re.M)
+    parts = [exc[-1] if exc else "?"]
+    if frames:
+        f, fn = frames[-1]
+        parts.append(f"{os.path.basename(f)}:{fn}")
+        for f, fn in reversed(frames):
+            if "/moptipy/" in f or "/moptipyapps/" in f:
+                parts.append(f"{os.path.basename(f)}:{fn}")
+                break
+    return "<-".join(parts)
 
 
 def _norm(text: str) -> str:
@@ -783,7 +810,8 @@ def _run_scenario(doc, dom, budget, root, base, res, seeds_fn) -> None:
             return
         else:
             core.violation(res, "experiment-raised",
-                           f"boot {bi} ended with rc={rc}: {out[-1500:]}")
+                           f"boot {bi} ended with rc={rc}: {out[-1500:]}",
+                           signature=_signature(out), domain=dom)
             return
         for r in recs:
             if r["e"] == "peer_claimed":
